@@ -926,6 +926,7 @@ enum cc_stat cc_array_sized_iter_remove(CC_ArraySizedIter *iter, uint8_t *out)
     if (!iter->last_removed) {
         status = cc_array_sized_remove_at(iter->ar, iter->index - 1, out);
         if (status == CC_OK) {
+            iter->index--;
             iter->last_removed = true;
         }
     }
@@ -1049,6 +1050,7 @@ enum cc_stat cc_array_sized_zip_iter_remove(CC_ArraySizedZipIter *iter, uint8_t 
     if (!iter->last_removed) {
         cc_array_sized_remove_at(iter->ar1, iter->index - 1, out1);
         cc_array_sized_remove_at(iter->ar2, iter->index - 1, out2);
+        iter->index--;
         iter->last_removed = true;
         return CC_OK;
     }
